@@ -34,14 +34,16 @@ def drivers(tier):
         d['callback-disables'] = (WorldDriver(
             'callback-disables', own='L', types=('H', 'HZ'), ids=(1,),
             explicit_ids=(1,), max_autos=1, toggles=True, max_postponed=2,
-            shapes=((), ('H',), ('HZ',), ('H', 'HZ'))),
+            shapes=((), ('H',), ('HZ',), ('H', 'HZ'), ('HZ', 'H')),
+            coarse=False),
             dict(max_states=250000, time_budget=240))
     else:
         d['callback-disables'] = (WorldDriver(
             'callback-disables', own='L', types=('H', 'HZ', 'P'), ids=(1, 2),
             explicit_ids=(1,), max_autos=1, toggles=True, max_postponed=2,
-            shapes=((), ('H',), ('HZ',), ('H', 'HZ'))),
-            dict(max_states=400000, time_budget=1200))
+            shapes=((), ('H',), ('HZ',), ('H', 'HZ'), ('HZ', 'H')),
+            coarse=False),
+            dict(max_states=600000, time_budget=1200))
         d['toggle-fixpoint'] = (WorldDriver(
             'toggle-fixpoint', own='L', types=('H', 'P', 'N', 'OA'),
             ids=(1, 2), explicit_ids=(1, 2), max_autos=1, toggles=True,
